@@ -272,9 +272,11 @@ def decide(pid, spec, m, t, wall, nshards, replay=None):
     shown = [(k, v) for k, v in sorted(c.items()) if not k.startswith('viol:')][:60]
     print('  monitors: ' + ', '.join(f'{k}={v}' for k, v in shown))
     if lines:
-        for v, path in lines:
+        for v, path in lines[:12]:
             print(f"  {v['key']}: {v['msg'][:300]}")
             print(f"VIOLATION property={pid} replay={path}")
+        if len(lines) > 12:
+            print(f"  ... and {len(lines) - 12} more violation keys (see evidence file / out/replay)")
         return 1
     if unsure:
         for u in unsure[:10]:
